@@ -115,10 +115,14 @@ def explain(case, f):
         ids.append("C08-fill-split-path")
     if fill == "prev" and n_cols(q) >= 2 and ft["partial_row"]:
         ids.append("C08-fill-previous-multicolumn")
+    if fill == "prev" and ft.get("single_row_group"):
+        ids.append("C08-fill-previous-single-row-group")
     if fill == "prev" and desc and ft["empty_bucket"]:
         ids.append("C08-fill-previous-desc")
     if q["kind"] == "agg" and desc and any(a["fn"] in ("first", "last") for a in q["aggs"]):
         ids.append("C08-desc-first-last")
+    if q["kind"] == "agg" and desc and ft.get("selector_tie"):
+        ids.append("C08-desc-selector-tie")
     if q["kind"] == "plain" and ft["has_tie"] and f.get("tie_only"):
         ids.append("C08-tie-order")
     if ft["layout"] == "ooo" and iv and (0 < inner < 1024 or desc):
@@ -131,8 +135,12 @@ FINDING_TEXT = {
                            "(FillTransform split path; descending loses data, fill(previous) leaks across groups)",
     "C08-fill-previous-multicolumn": "fill(previous) with several aggregate columns and a partially null bucket: answer differs from the "
                                      "per-column previous value and changes with inner_chunk_size",
+    "C08-fill-previous-single-row-group": "fill(previous): a group with a single data row that is not the first group of its chunk is "
+                                          "continued with the last values of the preceding group",
     "C08-fill-previous-desc": "ORDER BY time DESC with fill(previous) and an empty bucket: filled in iteration order, not the ascending answer reversed",
     "C08-desc-first-last": "first()/last() in a descending aggregate query return a different point than in the ascending query",
+    "C08-desc-selector-tie": "single min()/max() without time(): when the extreme value occurs at several timestamps a descending "
+                             "query reports the latest of them, the ascending query the earliest",
     "C08-tie-order": "plain selection: order of rows with equal timestamps from different series changes with inner_chunk_size / limit",
     "C08-ooo-time-agg": "GROUP BY time() aggregates over series with out-of-order (overlapping) files are wrong for small inner_chunk_size and for ORDER BY time DESC",
 }
